@@ -576,11 +576,6 @@ func RunEvt(cfgw, script string, notes *[]string) string {
 
 // runEvtChild also tells how many rounds the child completed (what it was doing when it died is the next one).
 func runEvtChild(cfgw, script string, notes *[]string) (answer string, roundsDone int) {
-	a, n := runEvtChild1(cfgw, script, notes)
-	return a, n
-}
-
-func runEvtChild1(cfgw, script string, notes *[]string) (string, int) {
 	for try := 0; ; try++ {
 		cr := runChild(90*time.Second, "evt", cfgw, script)
 		done := strings.Count(cr.stdout, "\nround ")
